@@ -19,20 +19,23 @@ def gen_single(rng):
     params = {"kb": rng.choice([0.5, 2.0]), "kc": rng.choice([0.2, 0.6]), "kd": rng.choice([0.3, 1.5]), "KK": 3.0,
               "gr": rng.choice([0.2, 0.5, 1.0]), "ge": rng.choice([0.1, 0.3]), "thr_t": rng.choice([1.0, 2.0, 3.5]), "thr_v": rng.choice([1.5, 2.0, 3.0]),
               "thr_d": rng.choice([0.5, 1.0]), "thr_k": float(rng.choice([0, 8, 12])), "kve": rng.choice([0.5, 2.0]), "kde": rng.choice([0.05, 0.3]), "kke": rng.choice([0.02, 0.1])}
+    # rules may carry their normal noise term (a parameter name as a third / fifth entry): two uniforms per evaluation
+    params["nz_g"] = rng.choice([0.05, 0.2]); params["nz_t"] = rng.choice([0.1, 0.3]); params["nz_k"] = rng.choice([0.5, 2.0])
+    NZ = lambda name: ([name] if rng.random() < 0.35 else [])
     vrules = []
     k = rng.random()
-    if k < 0.35: vrules.append(["linear", "gr"])
-    elif k < 0.6: vrules.append(["multiplicative", "gr"])
+    if k < 0.35: vrules.append(["linear", "gr"] + NZ("nz_g"))
+    elif k < 0.6: vrules.append(["multiplicative", "gr"] + NZ("nz_g"))
     elif k < 0.75: vrules.append(["ode", "gr*volume/(1+volume)"])
-    elif k < 0.85: vrules += [["linear", "gr"], ["multiplicative", "ge"]]
+    elif k < 0.85: vrules += [["linear", "gr"] + NZ("nz_g"), ["multiplicative", "ge"]]
     drules = []
     k = rng.random()
-    if k < 0.25: drules.append(["volume", "thr_v"])
-    elif k < 0.45: drules.append(["time", "thr_t"])
-    elif k < 0.6: drules.append(["deltaV", "thr_d"])
-    elif k < 0.7: drules += [["time", "thr_t"], ["volume", "thr_v"]]
+    if k < 0.25: drules.append(["volume", "thr_v"] + NZ("nz_t"))
+    elif k < 0.45: drules.append(["time", "thr_t"] + NZ("nz_t"))
+    elif k < 0.6: drules.append(["deltaV", "thr_d"] + NZ("nz_t"))
+    elif k < 0.7: drules += [["time", "thr_t"] + NZ("nz_t"), ["volume", "thr_v"]]
     krules = []
-    if rng.random() < 0.3: krules.append(["species", "B", "thr_k", rng.choice([">", "<", "="])])
+    if rng.random() < 0.3: krules.append(["species", "B", "thr_k", rng.choice([">", "<", "="])] + NZ("nz_k"))
     vevents = [["linear volume", "ge", "kve", rng.choice(["", "A"])]] if rng.random() < 0.3 else []
     # a multiplicative volume event with a volume-proportional propensity blows up in finite time: its propensity reads a species
     # ... and only in networks without zero-order production (production ~ V and V *= 1.1 at a rate ~ A feed each other: blow-up)
@@ -54,11 +57,12 @@ def build(case):
     M = LineageModel(species=list(case["species"]), reactions=rx, parameters=[(k, v) for k, v in case["parameters"].items()], initial_condition_dict=dict(case["x0"]))
     so = case.get("splitter")
     vs = LineageVolumeSplitter(M, options=dict(so["options"]), partition_noise=so["noise"]) if so else LineageVolumeSplitter(M)
-    for kind, g in case["vrules"]:
+    for vr in case["vrules"]:
+        kind, g = vr[0], vr[1]
         if kind == "ode": M.create_volume_rule("ode", {"equation": g})
-        else: M.create_volume_rule(kind, {"growth_rate": g})
-    for kind, thr in case["drules"]: M.create_division_rule(kind, {"threshold": thr}, vs)
-    for kind, sp, thr, comp in case["krules"]: M.create_death_rule("species", {"specie": sp, "threshold": thr, "comp": comp})
+        else: M.create_volume_rule(kind, dict({"growth_rate": g}, **({"noise": vr[2]} if len(vr) > 2 else {})))
+    for dr in case["drules"]: M.create_division_rule(dr[0], dict({"threshold": dr[1]}, **({"noise": dr[2]} if len(dr) > 2 else {})), vs)
+    for kr in case["krules"]: M.create_death_rule("species", dict({"specie": kr[1], "threshold": kr[2], "comp": kr[3]}, **({"noise": kr[4]} if len(kr) > 4 else {})))
     for kind, g, k, sp in case["vevents"]: M.create_volume_event(kind, {"growth_rate": g}, "massaction", {"k": k, "species": sp})
     for k, sp in case["devents"]: M.create_division_event("division", {}, "massaction", {"k": k, "species": sp}, vs)
     for k, sp in case["kevents"]: M.create_death_event("death", {}, "massaction", {"k": k, "species": sp})
@@ -107,16 +111,18 @@ def driver_line(case, r, term_tokens_of=None):
     p2i, s2i = r["p2i"], r["s2i"]
     toks = ["lsim"] + r["sim"]
     toks.append(str(len(case["vrules"])))
-    for i, (kind, g) in enumerate(case["vrules"]):
+    nz = lambda lst, k: (str(p2i[lst[k]]) if len(lst) > k else "-")
+    for i, vr in enumerate(case["vrules"]):
+        kind, g = vr[0], vr[1]
         if kind == "ode":
             vt = (r.get("vterms") or [None] * (i + 1))[i]
             if vt is None: return None
             toks += ["ode"] + vt
-        else: toks += [{"linear": "lin", "multiplicative": "mult"}[kind], str(p2i[g])]
+        else: toks += [{"linear": "lin", "multiplicative": "mult"}[kind], str(p2i[g]), nz(vr, 2)]
     toks.append(str(len(case["drules"])))
-    for kind, thr in case["drules"]: toks += [{"time": "time", "volume": "vol", "deltaV": "dv"}[kind], str(p2i[thr])]
+    for dr in case["drules"]: toks += [{"time": "time", "volume": "vol", "deltaV": "dv"}[dr[0]], str(p2i[dr[1]]), nz(dr, 2)]
     toks.append(str(len(case["krules"])))
-    for kind, sp, thr, comp in case["krules"]: toks += ["sp", str(s2i[sp]), str(p2i[thr]), {">": "1", "<": "-1", "=": "0"}[comp]]
+    for kr in case["krules"]: toks += ["sp", str(s2i[kr[1]]), str(p2i[kr[2]]), {">": "1", "<": "-1", "=": "0"}[kr[3]], nz(kr, 4)]
     toks.append(str(len(case["vevents"])))
     for kind, g, k, sp in case["vevents"]: toks += _evprop(k, sp, p2i, s2i) + [{"linear volume": "lin", "multiplicative volume": "mult"}[kind], str(p2i[g])]
     toks.append(str(len(case["devents"])))
@@ -168,7 +174,7 @@ def oracle(case, r):
     for k, row in enumerate(rows):
         if any(v < 0 or v != int(v) for v in row): return "actually simulated: row %d = %r is no state of integer counts" % (k, row)
     has_growth = bool(case["vrules"]) and not case["vevents"]
-    if has_growth and all(kind in ("linear", "multiplicative") for kind, _ in case["vrules"]):
+    if has_growth and all(vr[0] in ("linear", "multiplicative") and len(vr) == 2 for vr in case["vrules"]):
         for a, b in zip(vols, vols[1:]):
             if b < a * (1 - 1e-12): return "single cell: volume decreases under pure growth: %r" % vols
     return None
@@ -191,6 +197,11 @@ def gen_lineage(rng):
     c["times"] = [float(v) for v in c["times"]]
     # keep populations small: division not faster than about once per 1.5 time units
     c["parameters"]["thr_t"] = max(c["parameters"]["thr_t"], 2.0); c["parameters"]["kde"] = min(c["parameters"]["kde"], 0.3)
+    # the noise of a division rule is redrawn at every iteration of the loop (every reaction event): keep it small, or a cell divides
+    # as soon as one of many draws reaches far enough, and the population explodes
+    c["parameters"]["nz_t"] = 0.02
+    # a duplicated volume is never halved: with growth proportional to the volume, divisions come faster and faster
+    if c["splitter"]["options"]["volume"] == "duplicate" and any(vr[0] in ("multiplicative", "ode") for vr in c["vrules"]): c["splitter"]["options"]["volume"] = "perfect"
     # a division event's propensity is proportional to the volume: keep the volume bounded (no multiplicative volume events, no
     # duplicated volume) and the event rate low on long grids, or the population explodes
     if c["devents"]:
